@@ -241,6 +241,8 @@ pub fn run_scen(s: &Scen, seed: u64, strategy: Strategy) -> Outcome {
       left.fetch_sub(1, Ordering::SeqCst);
     }));
   }
+  // a "[fifo-worker]" scenario models a single-threaded FIFO pool on its own thread
+  let fifo_worker = s.name.contains("fifo-worker");
   for wi in 0..s.workers {
     let (pool, left) = (pool.clone(), producers_left.clone());
     let spin_cap = s.worker_spins.max(50);
@@ -253,7 +255,7 @@ pub fn run_scen(s: &Scen, seed: u64, strategy: Strategy) -> Outcome {
           crate::vtime::fire(id);
         }
         pick = pick.wrapping_mul(31).wrapping_add(7);
-        let ran = pool.run_one(pick);
+        let ran = pool.run_one(if fifo_worker { 0 } else { pick });
         if !ran && left.load(Ordering::SeqCst) == 0 && pool.idle() && crate::vtime::pending_count() == 0 {
           break;
         }
@@ -268,6 +270,22 @@ pub fn run_scen(s: &Scen, seed: u64, strategy: Strategy) -> Outcome {
   YIELD_IN_PROBE.store(true, Ordering::SeqCst);
   let baton = conc::baton_run(seed, strategy, bodies);
   YIELD_IN_PROBE.store(false, Ordering::SeqCst);
+  // a worker may have given up (spin cap) before the producers scheduled their
+  // last tasks: whatever is still scheduled runs now, FIFO, on this thread, so
+  // that "the scheduler ran until idle" holds for every oracle
+  if s.workers > 0 && baton.deadlock.is_none() && !baton.timed_out && !baton.livelock && baton.finished.iter().all(|f| *f) {
+    let pool2 = pool.clone();
+    let _ = catch(move || {
+      for _ in 0..10_000 {
+        for (id, _) in crate::vtime::pending() {
+          crate::vtime::fire(id);
+        }
+        if !pool2.run_one(0) && crate::vtime::pending_count() == 0 {
+          break;
+        }
+      }
+    });
+  }
   let peek_at_end = if s.kind == Kind::Behavior && baton.deadlock.is_none() && !baton.timed_out { Some(Behavior::<V, E>::peek(&beh)) } else { None };
   let out = Outcome { baton, evs: log.evs(), overlaps: log.overlaps(), peek_at_end, spawned_tasks: pool.spawned.load(Ordering::SeqCst) };
   // leak what the scenario built: if the run was abandoned (deadlock) its
@@ -445,6 +463,52 @@ pub fn rate_oracle(o: &Outcome, s: &Scen) -> Option<(String, serde_json::Value)>
           if first_term.map_or(true, |t| e.seq < t) && !leaves.contains(&v) {
             return Some(("item_lost".into(), json!({"why": format!("next({}) returned before complete() was called, the buffered stream completed, but no buffer contains it", v), "saw": leaves})));
           }
+        }
+      }
+    }
+  }
+  None
+}
+
+/// C07 (thread part): one producer thread, the operator's tasks on a FIFO worker
+/// thread: items arrive in the source's order, all of them (then the terminal)
+/// when the source completed, a prefix then the error when it failed
+pub fn moved_oracle(o: &Outcome, s: &Scen) -> Option<(String, serde_json::Value)> {
+  let out = notes(&o.evs, 1);
+  let items: Vec<i64> = out.iter().filter_map(|n| if let N::Next(v) = n { Some(v.int()) } else { None }).collect();
+  let emitted: Vec<i64> = o.evs.iter().filter_map(|e| if let K::Mark("next_call", v) = e.k { Some(v) } else { None }).collect();
+  let show = |why: String| json!({"why": why, "emitted": emitted, "delivered": jn(&out)});
+  let mut d = items.clone();
+  d.sort();
+  d.dedup();
+  if d.len() != items.len() || items.iter().any(|v| !emitted.contains(v)) {
+    return Some(("invented_or_duplicated".into(), show("an item was delivered twice or never emitted".into())));
+  }
+  if items.windows(2).any(|w| w[0] > w[1]) {
+    return Some(("order_not_preserved".into(), show("the single producer's items were delivered out of order although the scheduler runs its tasks FIFO".into())));
+  }
+  let unsub = o.evs.iter().any(|e| matches!(e.k, K::Mark("unsub_call", _)));
+  let term = s.threads[0].iter().find(|op| matches!(op, TOp::Complete(_) | TOp::Error(_)));
+  if !unsub && !o.baton.timed_out {
+    match term {
+      Some(TOp::Complete(_)) => {
+        let mut want: Vec<N> = emitted.iter().map(|v| N::Next(V::I(*v))).collect();
+        want.push(N::Complete);
+        if out != want {
+          return Some(("items_or_terminal_lost".into(), show("the source completed and the worker ran until idle: every item and then the completion must have arrived".into())));
+        }
+      }
+      Some(TOp::Error(_)) => {
+        if !matches!(out.last(), Some(N::Err(_))) {
+          return Some(("items_or_terminal_lost".into(), show("the source failed and the worker ran until idle: the error must have arrived".into())));
+        }
+      }
+      _ => {
+        if out.iter().any(|n| n.is_terminal()) {
+          return Some(("invented_terminal".into(), show("a terminal arrived although the source did not terminate".into())));
+        }
+        if items != emitted {
+          return Some(("items_or_terminal_lost".into(), show("the worker ran until idle: every item must have arrived".into())));
         }
       }
     }
@@ -783,6 +847,30 @@ pub fn random_scen(r: &mut Rng, family: usize) -> Scen {
         worker_spins: 20_000,
       }
     }
+    21 | 22 => {
+      // one producer thread, one FIFO worker thread (a single-threaded pool on
+      // its own thread): the scheduler-moving operators must keep the order
+      let op = if family == 21 { Op::ObserveOn } else { Op::Delay([0, 0, 1][r.below(3)]) };
+      let mut prod: Vec<TOp> = (0..1 + r.below(4)).map(|_| TOp::Next(0)).collect();
+      match r.below(4) {
+        0 | 1 => prod.push(TOp::Complete(0)),
+        2 => prod.push(TOp::Error(0)),
+        _ => {}
+      }
+      let mut threads = vec![prod];
+      if r.chance(1, 4) {
+        threads.push(vec![TOp::Unsub(0)]);
+      }
+      Scen {
+        name: if family == 21 { "observe_on_threads[fifo-worker]" } else { "delay_threads[fifo-worker]" },
+        kind: Kind::Pipe(Chain::new(Src::Hot(0), vec![op])),
+        n_hot: 1,
+        initial_subs: 1,
+        threads,
+        workers: 1,
+        worker_spins: 20_000,
+      }
+    }
     15..=18 => {
       // scheduler-using operators whose shared cells are MutArc even in the local form,
       // with managed workers running their tasks and firing their timers
@@ -806,7 +894,7 @@ pub fn random_scen(r: &mut Rng, family: usize) -> Scen {
   }
 }
 
-pub const FAMILIES: usize = 21;
+pub const FAMILIES: usize = 23;
 
 pub fn strategy_for(r: &mut Rng) -> Strategy {
   match r.below(4) {
@@ -1109,6 +1197,7 @@ pub fn run_scen_free_mode(s: &Scen, mode: u8, seed: u64) -> Outcome {
       done.fetch_add(1, Ordering::SeqCst);
     });
   }
+  let fifo_worker = s.name.contains("fifo-worker");
   for wi in 0..s.workers {
     let (pool, left, done) = (pool.clone(), left.clone(), done.clone());
     let cap = s.worker_spins.max(200);
@@ -1120,7 +1209,7 @@ pub fn run_scen_free_mode(s: &Scen, mode: u8, seed: u64) -> Outcome {
         for (id, _) in crate::vtime::pending() {
           crate::vtime::fire(id);
         }
-        let ran = pool.run_one(spins as usize);
+        let ran = pool.run_one(if fifo_worker { 0 } else { spins as usize });
         if !ran && left.load(Ordering::SeqCst) == 0 && pool.idle() && crate::vtime::pending_count() == 0 {
           break;
         }
@@ -1144,6 +1233,19 @@ pub fn run_scen_free_mode(s: &Scen, mode: u8, seed: u64) -> Outcome {
     std::thread::yield_now();
   }
   conc::set_mode(prev);
+  if s.workers > 0 && !timed_out {
+    let pool2 = pool.clone();
+    let _ = catch(move || {
+      for _ in 0..10_000 {
+        for (id, _) in crate::vtime::pending() {
+          crate::vtime::fire(id);
+        }
+        if !pool2.run_one(0) && crate::vtime::pending_count() == 0 {
+          break;
+        }
+      }
+    });
+  }
   let panics: Vec<(usize, String)> = vec![];
   let baton = BatonOutcome { panics, finished: vec![!timed_out; s.threads.len()], timed_out, ..Default::default() };
   let out = Outcome { baton, evs: log.evs(), overlaps: log.overlaps(), peek_at_end: None, spawned_tasks: 0 };
